@@ -170,6 +170,10 @@ def run(prog, rep):
     row(rep, prog, "conditional-without-parameters", q, "ValueError",
         lambda pc: any_lit(pc, lit_in("conditional_on", dd, True)) and any_lit(pc, lit_in("parameters", dd, False)),
         "a conditional description without 'parameters'")
+    row(rep, prog, "parameters-without-conditional", q, "ValueError",
+        lambda pc: any_lit(pc, lit_in("parameters", dd, True)) and any_lit(pc, lit_in("conditional_on", dd, False)),
+        "'parameters' (unknown names, a fixed-and-dependent clash) given without 'conditional_on': they would be dropped without a word and the variable "
+        "modelled as independent")
     row(rep, prog, "unknown-keys", q, "ValueError",
         lambda pc: any(nonempty_of(l, lambda X: mentions(X, ("attr", SELF, "_dist_description_keys"))) for l in pc),
         "a description with unknown keys")
@@ -224,6 +228,14 @@ def run(prog, rep):
                              ("not", CMP("==", ("call", G("numpy.ndim"), (data,), ()), two))) for l in _alts_of(pc)),
         "data that is not a two-dimensional (observations x variables) array: with (1, n, 2)- or (n, 2, 2)-shaped data the last axis matches and "
         "every variable is fitted to rows of the wrong axis", anchors=lambda c: loops(c))
+    # ... and the same for a transformed model: its transform reads the columns it knows and would ignore the rest
+    qt = f"{JM}.TransformedModel.fit"
+    for nm_, lits_, desc_ in (("data-dimension", lambda l: l[0] == "not" and l[1][0] == "cmp" and l[1][1] == "==" and ("attr", SELF, "n_dim") in (l[1][2], l[1][3])
+                               and any(w[0] == "attr" and w[2] == "shape" for w in walk(l[1])), "data whose number of columns differs from the model dimension"),
+                              ("data-not-a-matrix", lambda l: l[0] == "not" and l[1][0] == "cmp" and l[1][1] == "==" and ("const", 2) in (l[1][2], l[1][3])
+                               and any((w[0] == "attr" and w[2] == "ndim") or w == G("numpy.ndim") or w == G("len") for w in walk(l[1])), "data that is not a two-dimensional array")):
+        row(rep, prog, nm_, qt, "ValueError", lambda pc, f_=lits_: any(f_(l) for l in _alts_of(pc)), desc_,
+            anchors=lambda c: stmts_calling(c, "transform"))
     c = Ctx(prog, q)
     calls = stmts_calling(c, "_check_and_fill_fit_desc")
     ok = len(calls) == 1 and all(c.cfg.dominates(c.cfg.node(calls[0]), c.cfg.node(l)) for l in loops(c))
@@ -281,7 +293,7 @@ def run(prog, rep):
         anchors=lambda c: [st for st in c.cfg.all_stmts() if isinstance(st, ast.Assign) and isinstance(st.targets[0], ast.Attribute) and st.targets[0].attr == "reference"])
     # rows shared with other properties' rules
     rep.part(shared, prog, rep)
-    rep.expect_min("C18.guard", 28)
+    rep.expect_min("C18.guard", 31)
     rep.expect_min("C18.hierarchy", 7)
     rep.expect_min("C18.shared", 21)
 
